@@ -15,6 +15,7 @@ import random
 import struct
 import sys
 import types
+import weakref
 
 import multiprocessing as _real_mp
 
@@ -85,7 +86,10 @@ class _Worker:
                 os.close(c2p_r)
                 # close the parent-side ends of every other live worker,
                 # otherwise their EOF never arrives
-                for pl in STATE['pools']:
+                for ref in STATE['pools']:
+                    pl = ref()
+                    if pl is None:
+                        continue
                     for w in pl._workers:
                         for fd in (w.to_fd, w.from_fd):
                             try:
@@ -229,7 +233,9 @@ class Pool:
         _inc('workers_hist.{:02d}'.format(processes))
         for k in range(processes):
             self._workers.append(_Worker(k, self, initializer, initargs))
-        STATE['pools'].append(self)
+        # weak: a pool nobody references any more is finalised (workers
+        # reaped) like CPython's; one the code keeps alive stays alive
+        STATE['pools'].append(weakref.ref(self))
 
     # -------------------------------------------------------- scheduling --
     def _schedule(self, n_chunks):
@@ -405,8 +411,8 @@ class Pool:
         for w in self._workers:
             w.stop()
         self._workers = []
-        if self in STATE['pools']:
-            STATE['pools'].remove(self)
+        STATE['pools'] = [r for r in STATE['pools']
+                          if r() is not None and r() is not self]
 
     def __enter__(self):
         return self
@@ -432,13 +438,26 @@ class _Apply:
 
 
 def reap_all():
-    """Called by the harness after every op: no worker survives an op."""
+    """End of a run (or of a harness-side step that must leave no process
+    behind): every remaining worker is reaped.  Returns how many pools were
+    still alive."""
     n = 0
-    for p in list(STATE['pools']):
+    for ref in list(STATE['pools']):
+        p = ref()
+        if p is None:
+            continue
         if p._workers:
             n += 1
         p._reap()
+    STATE['pools'] = []
     return n
+
+
+def collect():
+    """After an op: pools that are no longer referenced are finalised by
+    reference counting already; drop dead weak references."""
+    STATE['pools'] = [r for r in STATE['pools'] if r() is not None]
+    return sum(1 for r in STATE['pools'] if r()._workers)
 
 
 def cpu_count():
